@@ -17,7 +17,14 @@ SKIP = {"p", "puts", "print", "exit", "assert", "assertEq", "assertRaises", "imp
 TEMPLATES = ["{a} + {b}", "{a} + [4]", "{a} + \"4]\"", "[*{a}, 4]", "[*{a}, *{b}]", "[0, *{a}]", "{a}[1:]", "{a}[::-1]", "{a} * 2", "{{**{a}, k: 1}}", "{{k: 1, **{a}}}", "{{**{a}, **{b}}}", "%{{**{a}, 9: 9}}",
              "%{{**{a}, **{b}}}", "{a}.bear({{q: 1}})", "{a}.bro({{q: 1}})", "{a}.patch(x: 9)", "{a}.del('x)", "{a}@{{|x| x}}", "{a}@([9]){{|x| x}}", "{a}$([]){{|acc, x| [*acc, x]}}",
              "{{|k: 0| \\_}}(**{a}, **{b})", "{{|x| \\0}}(*{a}, *{b})", "{{|k: 0| [k, \\_]}}(**{a})", "{a}.push(7)", "{a}.unshift(7)", "{a}.assign(0, 7)", "{a}.sort", "{a}.rev", "{a}.uniq",
-             "{a}.concat({b})", "{a}.flatten", "{a}.zip({b})", "{a}.uc", "{a} / \",\"", "{a}.sub(\"l\", \"L\")", "{a}.S", "{a}.A", "{a}.O", "{a}.M", "{a}.items", "{a}.keys", "{a}.values"]
+             "{a}.concat({b})", "{a}.flatten", "{a}.zip({b})", "{a}.uc", "{a} / \",\"", "{a}.sub(\"l\", \"L\")", "{a}.S", "{a}.A", "{a}.O", "{a}.M", "{a}.items", "{a}.keys", "{a}.values",
+             "nil.try.{{|u1| raise {a}}}.err", "nil.try.{{|u1| {{|| raise {a}}}()}}.A", "{a}.try.abandon", "Either.newErr(Err, \"m\").catch(Err){{|e| raise {a}}}",
+             "{a}$(nil){{|p| p}}", "{a}${{\\}}", "{a}$([]){{|p| {{|| p}}}}", "{a}@{{|x| [x]}}", "{a}~@{{|x| nil}}", "[{a}, {b}].max", "{a}.clip({b}, {b})",
+             # values that become live in the middle of an evaluation (keep(x) snapshots the heap at that moment and returns x)
+             "{a}$(nil){{|p| keep(p)}}", "{a}${{keep(\\)}}", "{a}$([]){{|acc, x| keep([*acc, x])}}", "{a}@{{|x| keep([x, {b}])}}", "{a}@{{|x| keep(x)}}", "{a}~$(nil){{|p| keep(p)}}",
+             "{a}$(nil)^keep", "{a}@^keep", "keep({a}) + keep({b})", "keep({a}).push(keep({b}))", "{{|*xs| keep(xs)}}(*{a}, *{b})@{{|x| keep(x)}}", "{{|**o| keep(o)}}(**{a}, **{b}).bear({{q: keep(\\)}})",
+             "{a}.A@{{|x| keep(x)}}.sort", "{a}.A$(keep([])){{|acc, x| keep(acc + [x])}}", "%{{**{a}}}.items@{{|kv| keep(kv)}}.M", "{a}.items@{{|kv| keep(kv)}}.O",
+             "{a}.try.fmap{{|x| keep(x)}}.fmap{{|x| keep([x])}}.A", "keep({a}.try).or({b})", "keep(\"#{{keep({a})}}#{{keep({b})}}\")"]
 
 
 def hh(s):
@@ -109,12 +116,16 @@ def run():
         if len(snaps) < 2:
             discarded += 1
             continue
-        # order by creation: pool names first (fixed order), then w1, w2, ...
+        # order by creation: pool names first (fixed order), then results w<k> and kept values #k<j> in the order of their first appearance
         order = {n: k for k, n in enumerate(names)}
-        def key(entry):
+        def known(entry):
             n = entry.split("=", 1)[0]
-            return order[n] if n in order else 1000 + int(n[1:]) if n[0] == "w" and n[1:].isdigit() else 99999
-        snaps = [sorted([e for e in s if key(e) < 99999], key=key) for s in snaps]
+            return n in order or (n[0] == "w" and n[1:].isdigit()) or n.startswith("#k")
+        for s in snaps:
+            new = [e.split("=", 1)[0] for e in s if known(e) and e.split("=", 1)[0] not in order]
+            for n in sorted(new, key=lambda n: (n[0] != "#", int(n[2:] if n[0] == "#" else n[1:]))):    # within one snapshot: kept values precede the result built from them
+                order[n] = len(order)
+        snaps = [sorted([e for e in s if known(e)], key=lambda e: order[e.split("=", 1)[0]]) for s in snaps]
         rows.append({"id": str(i), "snaps": [[hh(e) for e in s] for s in snaps]})
         full[str(i)] = snaps
     res = run_tlc("Trace_C06", files={"c06.ndjson": ndjson(rows)}, timeout_s=1700)
